@@ -4,7 +4,7 @@ from __future__ import annotations
 import ast
 from typing import List, Optional
 
-from fjsa.flow import FuncFlow, call_args, guards_of, same, txt
+from fjsa.flow import ntxt, FuncFlow, call_args, guards_of, same, txt
 from fjsa.model import FuncInfo
 from fjsa.report import Check
 from fjsa.rules import wmean
@@ -271,15 +271,13 @@ def _flags(check: Check):
       for c in gff.expand(rv):
         if not (isinstance(c, ast.Call) and (wmean.repo_fn(gff, c) or gff.callee(c).kind == 'class')):
           continue
-        for k in c.keywords:
-          if k.arg is None:
-            continue
+        from fjsa.flow import bound_args
+        for arg, v in bound_args(gff, c).items():
           n += 1
-          v = k.value
           direct = isinstance(v, ast.Call) and txt(v.func) == 'self._get_flag' and len(v.args) == 1 and isinstance(v.args[0], ast.Constant)
-          ok = direct and v.args[0].value == k.arg
-          check.ob('R-FORWARD.flags', g, f'{k.arg}={txt(v)[:50]}', ok,
-                   f'hyper-parameter `{k.arg}` must be the value of the flag of the same name, unmodified (a truthiness default such as '
+          ok = direct and v.args[0].value == arg
+          check.ob('R-FORWARD.flags', g, f'{arg}={txt(v)[:50]}', ok,
+                   f'hyper-parameter `{arg}` must be the value of the flag of the same name, unmodified (a truthiness default such as '
                    '`x or None` turns an explicit 0 into "unset")', node=v)
   check.floor('R-FORWARD.flags', 'hparams fields built from flags', n, 5)
 
@@ -298,9 +296,9 @@ def _num_steps(check: Check):
     t = txt(v)
     if isinstance(v, ast.BinOp) and isinstance(v.op, ast.FloorDiv):
       num = v.left
-      if txt(num) == 'self._data_size * hparams.num_epochs' and txt(v.right) == 'hparams.batch_size':
+      if ntxt(num) == 'hparams.num_epochs * self._data_size' and txt(v.right) == 'hparams.batch_size':
         floor = ('hparams.drop_remainder', True) in g
-      if txt(num) == 'self._data_size * hparams.num_epochs + hparams.batch_size - 1' and txt(v.right) == 'hparams.batch_size':
+      if ntxt(num) == '((hparams.num_epochs * self._data_size) + hparams.batch_size) - 1' and txt(v.right) == 'hparams.batch_size':
         ceil = ('hparams.drop_remainder', False) in g
     if isinstance(v, ast.Call) and ff.ext(v.func) == 'builtins.min' and {txt(a) for a in v.args} == {'hparams.num_steps', 'self._num_steps'}:
       cap = ('hparams.num_steps is None', False) in g and ('hparams.num_epochs is None', False) in g
